@@ -89,7 +89,14 @@ impl Core {
                 }
                 if let Some(p) = &s.sender_panic {
                     self.oracle_sender_panic(s, p, o);
-                    return format!("PANIC {}", p);
+                    return "PANIC".to_string();
+                }
+                if let Some(u) = &s.unparsable {
+                    let z0 = s.objs.iter().any(|oi| oi.toi.is_some() && oi.tl == Some(0) && matches!(oi.oti.sch, Scheme::Raptor | Scheme::RaptorQ) && oi.oti.ifti);
+                    o.fail(
+                        &format!("{}:{}", s.sp.prop, if z0 { "raptor-empty-object-z0" } else { "unparsable-own-packet" }),
+                        &format!("flute's receiver-side parser rejects a packet of flute's sender: {}", u),
+                    );
                 }
                 let refused: Vec<String> = s.objs.iter().filter(|x| x.created && x.toi.is_none()).map(|x| x.idx.to_string()).collect();
                 self.oracle_refusal(s, o);
@@ -114,14 +121,14 @@ impl Core {
                     .collect::<Vec<_>>()
                     .join(" "),
             },
-            "full" | "mask" | "dup" | "join" => {
+            "full" | "probe" | "mask" | "dup" | "join" => {
                 let s = match &self.sess {
                     Some(s) => s,
                     None => return "no-session".into(),
                 };
                 let n = s.stream.len();
                 let sel: Vec<usize> = match cmd {
-                    "full" => (0..n).collect(),
+                    "full" | "probe" => (0..n).collect(),
                     "mask" => {
                         if rest.len() != n || !rest.chars().all(|c| c == '0' || c == '1') {
                             return "bad-op".into();
@@ -155,14 +162,16 @@ impl Core {
                     }
                 };
                 let rx = run_rx(s, &sel);
-                let obs = observe(s, &rx);
+                // `probe`: the run is judged by the oracle only (inputs in the region of a defect whose
+                // effect depends on third-party library internals: D15 inflate hang, D18 garbage inflate)
+                let obs = if cmd == "probe" { "done".to_string() } else { observe(s, &rx) };
                 if let Some(p) = &rx.panic {
                     o.fail(&format!("{}:receiver-panic", s.sp.prop), &format!("receiver panics at {}", p));
                     return obs;
                 }
                 match s.sp.prop.as_str() {
                     "C01" => {
-                        if cmd == "full" {
+                        if cmd == "full" || cmd == "probe" {
                             self.oracle_c01(s, &rx, &sel, o)
                         }
                     }
@@ -199,6 +208,9 @@ impl Core {
         }
         if (oi.p.src == "stream" || oi.p.src == "sparse" || oi.p.src == "file") && oi.p.cenc != "null" {
             v.push("C01:D18-stream-cenc");
+        }
+        if matches!(oi.oti.sch, Scheme::Raptor | Scheme::RaptorQ) && oi.tl == Some(0) && oi.oti.ifti {
+            v.push("C01:raptor-empty-object-z0");
         }
         v
     }
